@@ -7,7 +7,8 @@
 (* data abstracted away: every conditional jump takes both outcomes, so ALL  *)
 (* paths of the image are visited, including those no run takes.             *)
 (*   pc      index of the next instruction (0-based; Len(code) = finished)   *)
-(*   fs      frame stack: [ret, rt] for a call, ret = -1 for a loop frame    *)
+(*   fs      frame stack: [ret, rt] for a call, ret = -1 for a loop frame,   *)
+(*           ret = -2 for the context a ctx instruction opens for a call     *)
 (* Checked in every reachable state of every image:                          *)
 (*   InRange        the pc is inside the image                               *)
 (*   SegMatches     the pc lies in the body of the routine that was called    *)
@@ -15,14 +16,15 @@
 (*   JumpsStayHome  a branch lands in the same segment it starts in           *)
 (*   NoMarkerRun    the routine marker itself is never executed               *)
 (*   CallsExist     every jsr names a loaded routine or a built-in            *)
-(*   LoopsPair      end_loop closes a loop frame of the current call           *)
+(*   LoopsPair      end_loop closes a loop frame (the innermost frame)         *)
+(*   CallsHaveContext  a jsr finds the context its ctx opened on top          *)
 (*   ReturnsHome    return / end find a call frame                            *)
 (*   DoneBalanced   at the end of the script no frame is left                 *)
 (* and once per image, statically:                                            *)
 (*   RelocationPreservesTargets  every jump reaches the same instruction      *)
 (*                  object before and after routine bodies were moved          *)
-(* TraceVM (second part): the pc sequence of a real execution is a path of    *)
-(* this abstract machine.                                                      *)
+(* TraceVM.tla (second part): the (pc, frame shape) sequence of a real         *)
+(* execution of the Machine is a path of this abstract machine.                *)
 (***************************************************************************)
 EXTENDS Integers, Sequences, FiniteSets, TLC, TLCExt, Json, IOUtils
 
@@ -45,10 +47,11 @@ SegDef(p) == LET ms == {k \in 0..p : At(k).op = "ROUTINE" /\ \A j \in k..p - 1 :
              IN  IF ms = {} THEN "" ELSE At(CHOOSE k \in ms : \A j \in ms : j <= k).a
 SegExportOk == \A p \in 0..N - 1 : R.seg[p + 1] = SegDef(p)
 LoopF == [ret |-> -1, rt |-> ""]
+CtxF == [ret |-> -2, rt |-> ""]      \* a call's context: pushed by ctx, becomes the call frame at the jsr
 Calls == {i \in DOMAIN fs : fs[i].ret >= 0}
 TopCall == IF Calls = {} THEN 0 ELSE CHOOSE i \in Calls : \A j \in Calls : j <= i
 CurRoutine == IF TopCall = 0 THEN "" ELSE fs[TopCall].rt
-LoopsAbove == Len(fs) - TopCall
+TopIs(f) == fs # <<>> /\ fs[Len(fs)] = f
 Known(name) == name \in DOMAIN R.entries \/ name \in {R.builtins[i] : i \in DOMAIN R.builtins}
 
 \* ---- faults of the state itself ---------------------------------------------------------
@@ -60,33 +63,35 @@ Fault ==
     ELSE LET i == At(pc)
          IN  IF i.op = "ROUTINE" THEN "NoMarkerRun"
              ELSE IF i.op = "JSR" /\ ~Known(i.a) THEN "CallsExist"
-             ELSE IF i.op = "END_LOOP" /\ LoopsAbove = 0 THEN "LoopsPair"
+             ELSE IF i.op = "JSR" /\ ~TopIs(CtxF) THEN "CallsHaveContext"
+             ELSE IF i.op = "END_LOOP" /\ ~TopIs(LoopF) THEN "LoopsPair"
              ELSE IF (i.op = "RETURN" \/ (i.op = "END" /\ i.a # "MATRIX")) /\ TopCall = 0 THEN "ReturnsHome"
              ELSE IF i.op = "JUMP" /\ (pc + i.n < 0 \/ pc + i.n > N) THEN "InRange"
              ELSE IF i.op = "JUMP" /\ pc + i.n < N /\ Seg(pc + i.n) # Seg(pc) THEN "JumpsStayHome"
              ELSE IF i.op = "JUMP" /\ pc + i.n = N /\ Seg(pc) # "" THEN "JumpsStayHome"
              ELSE ""
 
-\* ---- control rules -------------------------------------------------------------------------
-Return == /\ pc' = fs[TopCall].ret /\ fs' = SubSeq(fs, 1, TopCall - 1)
-Step ==
+\* ---- control rules: the successors <<pc, fs>> of a fault-free state -----------------------
+Pop == SubSeq(fs, 1, Len(fs) - 1)
+Returned == <<fs[TopCall].ret, SubSeq(fs, 1, TopCall - 1)>>     \* loop frames of the call go with it
+Succs(limit) ==
     LET i == At(pc)
-    IN  CASE i.op = "JUMP" -> /\ fs' = fs
-                              /\ \/ pc' = pc + i.n
-                                 \/ i.a # "ALWAYS" /\ pc' = pc + 1
+    IN  CASE i.op = "JUMP" -> {<<pc + i.n, fs>>} \cup (IF i.a # "ALWAYS" THEN {<<pc + 1, fs>>} ELSE {})
+          [] i.op = "CTX" -> {<<pc + 1, Append(fs, CtxF)>>}
           [] i.op = "JSR" -> IF i.a \in DOMAIN R.entries
-                             THEN /\ Cardinality(Calls) < MaxCalls
-                                  /\ pc' = R.entries[i.a] /\ fs' = Append(fs, [ret |-> pc + 1, rt |-> i.a])
-                             ELSE pc' = pc + 1 /\ fs' = fs                      \* a built-in returns at once
-          [] i.op = "RETURN" -> Return
-          [] i.op = "END" -> IF i.a = "MATRIX" THEN pc' = pc + 1 /\ fs' = fs ELSE Return
-          [] i.op = "LOOP" -> pc' = pc + 1 /\ fs' = Append(fs, LoopF)
-          [] i.op = "END_LOOP" -> pc' = pc + 1 /\ fs' = SubSeq(fs, 1, Len(fs) - 1)
-          [] i.op = "STOP" -> pc' = N /\ fs' = <<>>
-          [] OTHER -> pc' = pc + 1 /\ fs' = fs
+                             THEN (IF Cardinality(Calls) < limit
+                                   THEN {<<R.entries[i.a], Append(Pop, [ret |-> pc + 1, rt |-> i.a])>>} ELSE {})
+                             ELSE {<<pc + 1, Pop>>}                             \* a built-in returns at once
+          [] i.op = "RETURN" -> {Returned}
+          [] i.op = "END" -> IF i.a = "MATRIX" THEN {<<pc + 1, fs>>} ELSE {Returned}
+          [] i.op = "LOOP" -> {<<pc + 1, Append(fs, LoopF)>>}
+          [] i.op = "END_LOOP" -> {<<pc + 1, Pop>>}
+          [] i.op = "STOP" -> {<<N, <<>> >>}
+          [] OTHER -> {<<pc + 1, fs>>}
+Step(limit) == \E s \in Succs(limit) : pc' = s[1] /\ fs' = s[2]
 
 Init == rec \in 1..Len(Batch) /\ TLCSet(rec, "") /\ pc = 0 /\ fs = <<>>
-Next == /\ pc < N /\ pc >= 0 /\ Fault = "" /\ TLCGet(rec) = "" /\ Step /\ UNCHANGED rec   \* (an image with a verdict is not explored further)
+Next == /\ pc < N /\ pc >= 0 /\ Fault = "" /\ TLCGet(rec) = "" /\ Step(MaxCalls) /\ UNCHANGED rec   \* (an image with a verdict is not explored further)
 Spec == Init /\ [][Next]_vars
 
 \* ---- static: loading does not change where a branch leads --------------------------------
